@@ -14,6 +14,20 @@ NOTES = {
     "C18_c": "first evaluation: NOT detected (provider cases only looked at batches with data); C18 now collects empty batches too and checks resource_ on every callback (NULLRES token) - caught",
     "C19_d": "first evaluation: NOT detected (sequential cases only); C19 now runs PRACE cases (2-3 threads of GetTracer/GetMeter/GetLogger under the scheduler shim, commit 269fc39) - caught with a replayable schedule",
     "C10_e": "first evaluation: NOT detected (the driver kept every Context alive and ASan's quarantine prevents address reuse); C10 now has stale-token histories on temporaries, run on a sanitizer-free driver variant as well - caught",
+    "C17_e": "first evaluation: NOT detected (Observe vs RemoveCallback is a two-thread interleaving; C17 was sequential); C17 now runs ORACE cases under the scheduler shim with coq/C17/SpecRace.v (commit f6059d3) - caught with a replayable schedule",
+    "C12_e": "first evaluation: NOT detected by C12 (caught by C05); C12 now models parent resolution (span in the context first, root marker second) and drives root-marked contexts holding a span (commit b10d932) - caught",
+    "C13_f": "first evaluation: NOT detected by C13 (caught by C01/C03: exactly_once:duplicate, batch:too_large); C13 now has batch processors with small batch sizes in front of a non-owning exporter and closed-gate bursts (commit c9b96e3) - caught",
+    "C13_e": "LoggerProvider::GetLogger race on the scope attributes: outside C13's quantifier (no schedules); caught by C19's PRACE cases",
+    "C14_e": "first evaluation: NOT detected (hidden per-thread validator state needs the same bytes as value then as key); C14 generator got the history_cases family - caught",
+    "C05_e": "first evaluation: only 'no-failing-input-found' (the SPEC trusted the implementation's report of the active span); the C05 SPEC now keeps its own per-thread scope stack (C10's abstract machine) and judges parentage against it; deep-nesting and stale-scope generators - concrete (also caught by C10)",
+    "C05_f": "as C05_e",
+    "C16_e": "first evaluation: NOT detected (every case extracted into an empty Context); C16 now extracts into non-empty destination contexts (RTD cases, theorem extract_into_any_context) - caught",
+    "C16_f": "first evaluation: NOT detected (two concurrent Injects sharing a static buffer; outside the 'inputs' quantifier); C16 got PINJ cases on the scheduler shim - caught",
+    "C07_e": "Aggregate() moved outside the storage lock (a record/collect race): outside C07's quantifier (no schedules); caught by C06's SRACE cases",
+    "C08_f": "same defect as C07_e/C06_e: outside C08's quantifier; caught by C06",
+    "C09_e": "unsynchronised ToHeader memo (two threads): outside C09's quantifier (inputs only); not detected - recorded as a limit of the check",
+    "C09_f": "hex table halved, out-of-bounds only where plain char is unsigned: on this platform the property holds; the constants translator no longer finds the 256-entry table -> reported as a broken tie with no-failing-input-found",
+    "C03_f": "first evaluation: only 'no-failing-input-found'; structured periodic schedules (collect thread stopped inside Export, worker time-out, next cycle) - concrete (export:overlap)",
     "C01_a": "the change is in CircularBuffer::Add: caught by C11 (ring under the shim); C01 runs use the queue as an atomic FIFO (one scheduling point per queue call) by design and cannot see it",
 }
 rows = []
